@@ -18,6 +18,11 @@ structure Front where
   cc : CharClass
   tables : LexTables
   pcfg : Parser.Cfg
+  /-- the compiler rejects jump offsets beyond 16 bits (regenerated fact `Gen.jumpGuard`; fix ba2f082) -/
+  jumpGuard : Bool := true
+
+/-- the configuration `expr.Eval` compiles with: no types, no result directive -/
+def Front.compCfg (F : Front) : CompCfg := { jumpGuard := F.jumpGuard }
 
 /-- the program value handed to the VM -/
 def progOfCompiled (cp : Compiled) : Prog := { code := cp.bytes.toArray, consts := cp.consts }
@@ -36,7 +41,7 @@ def evalSource (F : Front) (c : Cfg) (fuel : Nat) (src : String) : EvalOut :=
     match Parser.parse F.pcfg ts with
     | .error e => .parseError e
     | .ok n =>
-      match compileProgram {} n with
+      match compileProgram F.compCfg n with
       | .error e => .compileError e
       | .ok cp =>
         let out := run c (progOfCompiled cp) fuel
@@ -62,6 +67,8 @@ structure TypedCfg where
   opTable : OpTable := []
   tyOf : Node → String := fun _ => nilTyKey
   walkTbl : WalkTable := refSlots
+  /-- the compiler rejects jump offsets beyond 16 bits (regenerated fact `Gen.jumpGuard`) -/
+  jumpGuard : Bool := true
 
 /-- the operand of the result directive the compiler appends (`AsInt64` / `AsFloat64`; `AsBool` only checks) -/
 def castOf : Expect → Option Nat
@@ -69,7 +76,8 @@ def castOf : Expect → Option Nat
   | .float64 => some 1
   | _ => none
 
-def TypedCfg.compCfg (T : TypedCfg) : CompCfg := { mapEnv := T.mapEnv, cast := castOf T.check.expect }
+def TypedCfg.compCfg (T : TypedCfg) : CompCfg :=
+  { mapEnv := T.mapEnv, cast := castOf T.check.expect, jumpGuard := T.jumpGuard }
 
 inductive CompileOut where
   | configError (r : CheckRes)
